@@ -492,6 +492,25 @@ def ldu(load_v, name):
             'loop options must be read from the loop node\'s own DIRECTIVES '
             'annotation (set_loop_options entry)', {'anno_calls': annos},
             line=clo.node.lineno)
+  # a directive call may carry no option at all (`set_loop_options()`): the table
+  # is then empty, and `ks, vs = zip(*table.items())` cannot be unpacked
+  zs = []
+  for a_ in ast.walk(clo.node):
+    if isinstance(a_, ast.Assign) and isinstance(a_.targets[0], (ast.Tuple, ast.List)) and \
+        isinstance(a_.value, ast.Call) and core.dotted(a_.value.func) == 'zip' and any(
+            isinstance(x, ast.Starred) for x in a_.value.args):
+      src_ = core.norm([x for x in a_.value.args if isinstance(x, ast.Starred)][0].value)
+      base_ = src_.split('.items()')[0].split('.keys()')[0]
+      guarded = any(pol == 'T' and core.norm(t_) in (base_, 'len(%s)' % base_,
+                                                     'len(%s) > 0' % base_)
+                    for pol, t_ in formula.path_condition(clo.node, a_))
+      if not guarded:
+        zs.append(core.norm(a_))
+  rep.check(not zs, 'OPTS', '%s:empty-directive-table' % clo.site,
+            'the options of a directive call without arguments form an empty table; '
+            'unpacking zip(*table.items()) into keys and values fails on it and the '
+            'conversion of the whole function is lost', {'unpacked': zs},
+            line=clo.node.lineno, witness='while ...: set_loop_options(); ...')
   psd = model.func(DIRS, 'DirectivesTransformer._process_statement_directive')
   pp = psd.params()
   # (pure aliases such as `target = self.state[_LoopScope].ast_node` are removed by
